@@ -84,6 +84,50 @@ def handleC05 (op : String) (input impl : Json) : Except String Json := do
     let mj := Json.mkObj [("conflicts", Json.arr (mConf.map (fun c => Json.mkObj [("key", jRow c.1), ("row", jRow c.2.1), ("cols", jNats c.2.2)])).toArray),
                           ("rows", jRows m.rows)]
     return reply mj agree viol
+  | "merge-cli" =>
+    -- `wrgl commit` x3, `wrgl merge main b1 b2`, `wrgl export main`: the exported table must hold, for
+    -- every key, the row the by-name model resolves it to, under the merged columns minus those a
+    -- branch removed. The scenario is conflict-free by construction (the model must agree).
+    let columns ← asRow (fldD input "columns" (Json.arr #[]))
+    let pkNames ← asRow (fldD input "pkNames" (Json.arr #[]))
+    let base ← asRows (fldD input "base" (Json.arr #[]))
+    let branches ← (← asArr (fldD input "branches" (Json.arr #[]))).mapM asRows
+    let bcols ← ((fldD input "branchColumns" (Json.arr #[])).getArr?.toOption.getD #[]).toList.mapM asRow
+    if resClass impl == "panic" then return reply Json.null false ["no-panic"]
+    let keyIn := fun (cols : Row) (r : Row) => pkNames.map (fun n => (((cols.zip r).find? (fun p => p.1 == n)).map (·.2)).getD [])
+    let tables : List (Row × List Row) := (columns, base) :: bcols.zip branches
+    let keys := (tables.flatMap (fun (c, rows) => rows.map (keyIn c))).eraseDups
+    let names := mergedNames columns bcols
+    let removedNames := names.filter (fun n => columns.contains n && bcols.any (fun c => !c.contains n))
+    let finalNames := names.filter (fun n => !removedNames.contains n)
+    let res := keys.map (fun k =>
+      let ob := base.find? (fun r => keyIn columns r == k)
+      let os := (bcols.zip branches).map (fun (c, rows) => rows.find? (fun r => keyIn c r == k))
+      let skip := ob.isSome && os.all (fun o => o == ob)
+      (k, ob, if skip then Resolution.removed else resolveRecCols columns bcols ob os))
+    let conflictFree := res.all (fun (_, _, r) => match r with
+      | .conflict _ _ => false
+      | _ => true)
+    let byName := fun (ns : Row) (r : Row) => ((ns.zip r).filter (fun p => finalNames.contains p.1)).mergeSort (fun a b => bytesCmp a.1 b.1 != .gt)
+    let expRows := res.filterMap (fun (_, ob, r) => match r with
+      | .resolved row => some (byName names row)
+      | .removed => ob.map (fun b => byName columns b)      -- untouched by every branch
+      | .conflict _ _ => none)
+    let mj := Json.mkObj [("conflictFree", Json.bool conflictFree), ("rows", jNat expRows.length)]
+    if !conflictFree then return reply mj true []      -- not a case for this oracle
+    if resClass impl != "ok" then return reply mj false ["unexpected-error"]
+    let v := fldD impl "val" Json.null
+    let iCols ← asRow (fldD v "columns" (Json.arr #[]))
+    let iRows ← asRows (fldD v "rows" (Json.arr #[]))
+    let sortB := fun (l : Row) => l.mergeSort (fun a b => bytesCmp a b != .gt)
+    let sortR := fun (l : List (List (Bytes × Bytes))) => l.mergeSort (fun a b => (a.map (·.2)).toString ≤ (b.map (·.2)).toString)
+    let iBy := iRows.map (fun r => (iCols.zip r).mergeSort (fun a b => bytesCmp a.1 b.1 != .gt))
+    let viol : List String :=
+      (if sortB iCols == sortB finalNames then [] else ["columns-under-their-own-names"]) ++
+      (if expRows.all iBy.contains && iBy.all expRows.contains && iBy.length == expRows.length then []
+       else ["non-conflicting-changes-kept-and-untouched-rows-unchanged"])
+    let _ := sortR
+    return reply mj viol.isEmpty viol
   | _ => throw s!"unknown op {op}"
 
 end Wrgl.Drv
